@@ -932,3 +932,66 @@ func TestVerifC16RoundTripRace(t *testing.T) {
 		},
 	})
 }
+
+// TestVerifC16RetryTimer: a named stream is refused by the peer and never retried. The trace is held back for the
+// retry period and then delivered by a timer; when the connection is closed later, that operation has already
+// completed its trace - it must not be completed a second time. (Borrows the HTTP/2 exchange driver of the C15
+// harness; waits out the real retry period, hence only a handful of cases.)
+func TestVerifC16RetryTimer(t *testing.T) {
+	en := verifkit.NewEnum(t, "C16RetryTimer")
+	type row struct {
+		Server bool `json:"server"`
+		Extra  bool `json:"extraStream"` // another, normal stream on the same connection
+		Wait   bool `json:"waitOutRetryPeriod"`
+	}
+	var rows []row
+	for _, server := range []bool{false, true} {
+		for _, extra := range []bool{false, true} {
+			for _, wait := range []bool{true, false} {
+				rows = append(rows, row{server, extra, wait})
+			}
+		}
+	}
+	var mu sync.Mutex // vfBeforeClose is a package variable: one exchange at a time
+	for _, r := range rows {
+		ex := vfExchange{Server: r.Server, GoAwayAt: -1}
+		ex.Streams = append(ex.Streams, vfStreamSpec{Named: true, Name: 0, Attempt: 1, ReqCT: "application/proto", RespCT: "application/proto",
+			ReqMsgs: []vfMsg{{Payload: []byte("ping")}}, Fault: "refused", FaultAt: 1, RSTCode: 7, Order: []bool{true, false}})
+		if r.Extra {
+			ex.Streams = append(ex.Streams, vfStreamSpec{Named: true, Name: 1, Attempt: 1, ReqCT: "application/proto", RespCT: "application/proto",
+				ReqMsgs: []vfMsg{{Payload: []byte("a")}}, RespMsgs: []vfMsg{{Payload: []byte("b")}}, Trailers: true, Order: []bool{true, false}})
+		}
+		for i := 0; i < 12; i++ {
+			ex.Schedule = append(ex.Schedule, i%2)
+		}
+		mu.Lock()
+		if r.Wait {
+			vfBeforeClose = func() { time.Sleep(retryWait + 500*time.Millisecond) }
+		}
+		traces, err := vfRunExchange(ex, [2][]int{})
+		vfBeforeClose = nil
+		mu.Unlock()
+		var viol error
+		if err != nil {
+			viol = err
+		} else {
+			count := map[string]int{}
+			for _, tr := range traces {
+				count[tr.TestName]++
+			}
+			for name, n := range count {
+				if n != 1 {
+					viol = verifkit.Violf("retry-complete-count", "the operation %q completed its trace %d times (refused stream, no retry, connection closed %v the retry period): want exactly once", name, n, map[bool]string{true: "after", false: "within"}[r.Wait])
+				}
+			}
+			if count[vfTestName(ex.Streams[0])] == 0 {
+				viol = verifkit.Violf("retry-missing-trace", "the refused stream never completed a trace (%+v)", r)
+			}
+		}
+		en.Rec.Observe(r, []string{fmt.Sprintf("server:%v", r.Server), fmt.Sprintf("waited:%v", r.Wait)}, r.Wait)
+		if viol != nil && en.Fail(r, viol) {
+			break
+		}
+	}
+	en.Done(true)
+}
